@@ -64,6 +64,41 @@ theorem control_flow_tie :
     C09.srcRouteUDPClient = "{ if r.udpClient == nil { return nil, ErrRejected } return r.udpClient, nil }" :=
   ⟨rfl, rfl, rfl, rfl, rfl, rfl, rfl, rfl, rfl, rfl⟩
 
+/-- service.Config.Manager still builds the `resolvers` slice and `resolverMap` in the one loop that
+`serviceResolvers` (SSV/Model/RouterService.lean) mirrors: duplicate names refused, the same resolver object stored at
+`resolvers[i]` and under its configured name. -/
+theorem resolver_construction_tie :
+    C09.srcServiceResolverLoop = "for i := range sc.DNS { resolverConfig := &sc.DNS[i] if _, ok := resolverMap[resolverConfig.Name]; ok { return nil, fmt.Errorf(\"duplicate DNS resolver name: %q\", resolverConfig.Name) } resolver, err := resolverConfig.NewSimpleResolver(tcpClientMap, udpClientMap, logger) if err != nil { return nil, fmt.Errorf(\"failed to create DNS resolver %q: %w\", resolverConfig.Name, err) } resolvers[i] = resolver resolverMap[resolverConfig.Name] = resolver }" :=
+  rfl
+
+/-- **resolvers_agree.** What service.Config.Manager passes to the router: the slice holds the configured resolvers in
+configuration order, the map has exactly the same names, and no name occurs twice — so "the resolver called n"
+(`RouteConfig.Resolver`) is one of the resolvers of the slice and is unambiguous. (The router theorems themselves hold
+for any pair of slice and map.) -/
+theorem resolvers_agree (env env' : Env) (dns : List String) (h : env.withServiceResolvers dns = some env') :
+    env'.resolvers = dns ∧ env'.resolverMap = dns ∧ dns.Nodup ∧
+      (∀ rc : RouteConfig, rc.resolver ≠ "" →
+        (resolversFor env' rc = .ok [rc.resolver] ↔ rc.resolver ∈ env'.resolvers)) := by
+  unfold Env.withServiceResolvers at h
+  split at h
+  · cases h
+  · rename_i sl ks hs
+    cases h
+    obtain ⟨a, b, c⟩ := serviceResolvers_spec dns [] [] sl ks rfl (by simp) hs
+    simp only [List.nil_append] at b
+    subst b; subst a
+    refine ⟨rfl, rfl, c, ?_⟩
+    intro rc hne
+    unfold resolversFor
+    simp only [hne, if_false]
+    constructor
+    · intro h
+      split at h
+      · rename_i hc; exact List.contains_iff_mem.mp hc
+      · cases h
+    · intro h
+      rw [if_pos (List.contains_iff_mem.mpr h)]
+
 /-- The literals of `RouteConfig.Route` are the documented ones: a single port is stored as a port, up to 16
 ranges as a range set, more as a bit set; all 65535 ports is refused; "reject", "tcp", "udp". -/
 theorem literals_tie :
@@ -91,11 +126,44 @@ theorem route_build_sound (p : Params) (env : Env) (rc : RouteConfig) (route : R
 
 /-- **first_match.** For every router configuration that loads, `GetTCPClient` / `GetUDPClient` return what the
 specification says: the client of the first route, in configuration order, whose conditions all hold; an error if
-a condition of an earlier-or-equal route cannot be decided; otherwise the default client; reject ⇒ rejected. -/
+a condition of an earlier-or-equal route cannot be decided; otherwise the default client; reject ⇒ rejected.
+And the route `Router.match` returns (whose name the router logs) is that very route: the first one in configuration
+order whose documented conditions all hold, "default" if there is none, no route at all on an error. -/
 theorem first_match (p : Params) (env : Env) (cfg : Config) (r : Router) (q : Req)
     (hnd : env.servers.Nodup) (hq : q.WF env) (hb : buildRouter env cfg = .ok r) :
-    getClient p r q = specMatch p env cfg q :=
-  getClient_spec p env cfg r q hnd hq hb
+    getClient p r q = specMatch p env cfg q ∧ matchedRoute p r q = specMatchedRoute p env cfg q :=
+  router_spec p env cfg r q hnd hq hb
+
+/-- `specMatchedRoute` spelled out: the name of a route whose conditions all hold and that is preceded only by
+non-matching routes; "default" when every route is a non-match. -/
+theorem matched_route_spelled_out (p : Params) (env : Env) (cfg : Config) (q : Req) :
+    (∀ pre rc post, cfg.routes = pre ++ rc :: post → (∀ x ∈ pre, specRoute p env x q = .f) →
+        specRoute p env rc q = .t → specMatchedRoute p env cfg q = some rc.name) ∧
+    ((∀ x ∈ cfg.routes, specRoute p env x q = .f) → specMatchedRoute p env cfg q = some "default") ∧
+    (∀ pre rc post x, cfg.routes = pre ++ rc :: post → (∀ y ∈ pre, specRoute p env y q = .f) →
+        specRoute p env rc q = .e x → specMatchedRoute p env cfg q = none) := by
+  have skip : ∀ pre rest, (∀ x ∈ pre, specRoute p env x q = .f) →
+      specRouteNames p env q (pre ++ rest) = specRouteNames p env q rest := by
+    intro pre rest h
+    induction pre with
+    | nil => rfl
+    | cons a pre ih =>
+      simp only [List.cons_append, specRouteNames, h a List.mem_cons_self]
+      exact ih (fun x hx => h x (List.mem_cons_of_mem _ hx))
+  refine ⟨?_, ?_, ?_⟩
+  · intro pre rc post e hpre ht
+    unfold specMatchedRoute
+    rw [e, skip pre _ hpre]
+    simp only [specRouteNames, ht]
+  · intro h
+    unfold specMatchedRoute
+    have := skip cfg.routes [] h
+    rw [List.append_nil] at this
+    rw [this]; rfl
+  · intro pre rc post x e hpre hx
+    unfold specMatchedRoute
+    rw [e, skip pre _ hpre]
+    simp only [specRouteNames, hx]
 
 /-- `specMatch` spelled out: (1) a route whose conditions all hold, preceded only by routes that do not match, wins;
 (2) if no route matches the default client is used; (3) a route whose conditions cannot be decided, preceded only by
@@ -176,10 +244,54 @@ theorem port_representations_agree (p : Params) (q : Req) (s : PortSet) (hs0 : s
 
 /-- the table `RouteConfig.Route` builds from `ports` + `portRanges` holds exactly the denoted ports (so the
 hypothesis `s.mem 0 = false` of `port_representations_agree` holds for every table the router builds) -/
-theorem port_table_denotes (b1 b2 : BuildErr) (ports : List Nat) (items : List PortItem) (s1 s2 : PortSet)
-    (h1 : addPorts b1 .empty ports = .ok s1) (h2 : addItems b2 s1 items = .ok s2) :
-    (∀ x, s2.mem x = portsDenote ports items x) ∧ s2.mem 0 = false :=
-  portTable_spec .empty PortSet.wf_empty PortSet.mem_empty b1 b2 ports items s1 s2 h1 h2
+theorem port_table_denotes (b1 b2 : BuildErr) (ports : List Nat) (str : List UInt8) (s1 s2 : PortSet)
+    (h1 : addPorts b1 .empty ports = .ok s1) (h2 : addPieces b2 s1 (SSV.PortSet.items str) = .ok s2) :
+    (∀ x, s2.mem x = portsDenote ports str x) ∧ s2.mem 0 = false :=
+  portTable_spec .empty PortSet.wf_empty PortSet.mem_empty b1 b2 ports str s1 s2 h1 h2
+
+/-- **malformed_port_ranges_rejected.** `fromPortRanges` / `toPortRanges` are modelled as the strings that are written in
+the configuration. If any comma-separated piece is not a decimal port 1..65535 or `lo-hi` with 1 ≤ lo < hi ≤ 65535
+(empty piece, stray characters, sign, port 0, value above 65535, reversed or one-port range, a second dash, ...) the route
+does not load. (For routes that do load, `route_build_sound` says the port condition is membership in what the written
+string denotes: `portsDenote`.) -/
+theorem malformed_port_ranges_rejected (env : Env) (rc : RouteConfig)
+    (h : (∃ pc ∈ SSV.PortSet.items rc.fromPortRanges, SSV.PortSet.parseItem pc = none) ∨
+         (∃ pc ∈ SSV.PortSet.items rc.toPortRanges, SSV.PortSet.parseItem pc = none)) :
+    ∀ route, build env rc ≠ .ok route := by
+  intro route hb
+  obtain ⟨h1, h2⟩ := build_pieces_ok env rc route hb
+  rcases h with ⟨pc, hm, hn⟩ | ⟨pc, hm, hn⟩
+  · exact h1 pc hm hn
+  · exact h2 pc hm hn
+
+/-- **unknown_user_never_matches_fromUsers.** A route with a (non-inverted) `fromUsers` list never matches a request
+whose user name is not in the list — an unknown user, or the empty user name of an unauthenticated request unless ""
+itself is listed: the users condition is false, so the specification says no match, and so does `Route.Match` on the
+built route. With `invertFromUsers` the same request satisfies the users condition. -/
+theorem unknown_user_never_matches_fromUsers (p : Params) (env : Env) (rc : RouteConfig) (q : Req)
+    (hl : rc.fromUsers.isEmpty = false) (hu : q.user ∉ rc.fromUsers) :
+    (rc.invertFromUsers = false →
+      cUsers rc q = .f ∧ specRoute p env rc q ≠ .t ∧
+      ∀ route, env.servers.Nodup → q.WF env → build env rc = .ok route → meetAll p q route.criteria ≠ .yes) ∧
+    (rc.invertFromUsers = true → cUsers rc q = .t) := by
+  have hc : rc.fromUsers.contains q.user = false := by
+    rw [Bool.eq_false_iff]; intro h; exact hu (List.contains_iff_mem.mp h)
+  constructor
+  · intro hi
+    have h1 : cUsers rc q = .f := by simp [cUsers, hl, hu, hi, V.ofBool, V.inv]
+    have h2 : specRoute p env rc q ≠ .t := by
+      intro ht
+      have := ((conds_all_hold p env rc q).1.mp ht) (cUsers rc q) (by simp [conds])
+      rw [h1] at this; cases this
+    refine ⟨h1, h2, ?_⟩
+    intro route hnd hq hb hy
+    rw [route_build_sound p env rc route q hnd hq hb] at hy
+    cases hv : specRoute p env rc q with
+    | t => exact h2 hv
+    | f => rw [hv] at hy; cases hy
+    | e x => rw [hv] at hy; cases hy
+  · intro hi
+    simp [cUsers, hl, hu, hi, V.ofBool, V.inv]
 
 /-- **no_panic.** No request makes a loaded router panic: not the bit-set port criterion on port 0 (F3, guarded),
 not `bitset.IsSet` (server index below the capacity), not a nil criterion of an empty OR group, and the trailing
@@ -187,7 +299,7 @@ default route always matches ("did not match default route" is unreachable). -/
 theorem no_panic (p : Params) (env : Env) (cfg : Config) (r : Router) (q : Req)
     (hnd : env.servers.Nodup) (hq : q.WF env) (hb : buildRouter env cfg = .ok r) :
     getClient p r q ≠ .panic := by
-  rw [first_match p env cfg r q hnd hq hb]
+  rw [(first_match p env cfg r q hnd hq hb).1]
   exact specRoutes_ne_panic p env cfg q cfg.routes
 
 /-- **load_no_panic.** Loading a configuration never reaches the `panic("unreachable")` of `RouteConfig.Route`
@@ -200,7 +312,7 @@ theorem load_no_panic (env : Env) (cfg : Config) :
 /-! ### the hypotheses are satisfiable -/
 
 def exEnv : Env :=
-  { resolvers := ["dns"], tcpClients := ["a", "b"], udpClients := ["a", "b"], servers := ["s0", "s1"], pfxSets := ["lan"] }
+  { resolvers := ["dns"], resolverMap := ["dns"], tcpClients := ["a", "b"], udpClients := ["a", "b"], servers := ["s0", "s1"], pfxSets := ["lan"] }
 def exRoute : RouteConfig :=
   { name := "r1", client := "b", network := "tcp", fromServers := ["s1"], toDomains := ["x.test"],
     toMatchedDomainExpectedPrefixSets := ["lan"], toPrefixes := [⟨.v4 167772160, 8⟩], invertToPrefixes := true }
@@ -224,10 +336,24 @@ example : ∃ (p : Params) (rc : RouteConfig) (q : Req) (d : String) (x : Err),
    { name := "r", client := "a", toPrefixes := [⟨.v4 0, 0⟩] }, exReq, "x.test", .resolver "servfail",
    rfl, rfl, rfl, rfl, rfl, rfl⟩
 /-- hypotheses of `port_representations_agree` / `port_table_denotes`: the empty table has bit 0 clear -/
-example : PortSet.empty.mem 0 = false := PortSet.mem_empty 0
+example : Router.PortSet.empty.mem 0 = false := Router.PortSet.mem_empty 0
 /-- the single-port conjuncts of `port_representations_agree` are not vacuous: a table with exactly one port -/
 example : ∃ s : PortSet, s.count = 1 ∧ s.mem 0 = false := ⟨onePort, onePort_count, onePort_zero⟩
-example : ∃ s1 s2, addPorts .badToPorts .empty [] = .ok s1 ∧ addItems .badToPortRanges s1 [] = .ok s2 := ⟨_, _, rfl, rfl⟩
+example : ∃ s1 s2, addPorts .badToPorts .empty [] = .ok s1 ∧ addPieces .badToPortRanges s1 (SSV.PortSet.items []) = .ok s2 :=
+  ⟨_, _, rfl, rfl⟩
+/-- hypothesis of `malformed_port_ranges_rejected`: "80,,443" has an empty piece; "5-5" is a one-port range; "0" is port 0 -/
+example : ∃ pc ∈ SSV.PortSet.items [56, 48, 44, 44, 52, 52, 51], SSV.PortSet.parseItem pc = none := ⟨[], by decide, by decide⟩
+example : SSV.PortSet.parseItem [53, 45, 53] = none := by decide
+example : SSV.PortSet.parseItem [48] = none := by decide
+/-- ... while "80,8000-8100" is well-formed and denotes 8050 but not 81 -/
+example : rangesDenote [56, 48, 44, 56, 48, 48, 48, 45, 56, 49, 48, 48] 8050 = true ∧
+    rangesDenote [56, 48, 44, 56, 48, 48, 48, 45, 56, 49, 48, 48] 81 = false := by decide
+/-- hypotheses of `unknown_user_never_matches_fromUsers`: a list without the empty user name, an unauthenticated request -/
+example : (["alice"] : List String).isEmpty = false ∧ "" ∉ (["alice"] : List String) := by decide
+/-- hypothesis of `resolvers_agree`: two resolvers with different names -/
+example : ∃ env', exEnv.withServiceResolvers ["dns1", "dns2"] = some env' := ⟨_, rfl⟩
+/-- ... and a duplicate name is refused, as in service.Config.Manager -/
+example : exEnv.withServiceResolvers ["dns1", "dns1"] = none := rfl
 
 end SSV.C09
 
@@ -239,6 +365,11 @@ end SSV.C09
 #print axioms SSV.C09.route_build_sound
 #print axioms SSV.C09.first_match
 #print axioms SSV.C09.first_match_spelled_out
+#print axioms SSV.C09.matched_route_spelled_out
+#print axioms SSV.C09.resolver_construction_tie
+#print axioms SSV.C09.resolvers_agree
+#print axioms SSV.C09.malformed_port_ranges_rejected
+#print axioms SSV.C09.unknown_user_never_matches_fromUsers
 #print axioms SSV.C09.conds_all_hold
 #print axioms SSV.C09.resolver_failure_never_matches
 #print axioms SSV.C09.port_representations_agree
